@@ -75,7 +75,10 @@ def eval_record(ann, line, lineno):
     return {"req": req, "res": res, "failures": fails, "nontrivial": bool(res["Silent"].get("rec", {}).get("errors"))}
 
 
-def eval_file(lines, given=None, given_norestrict=None):
+def eval_file(lines, given=None, given_norestrict=None, route="list", final=True, tmp=None):
+    """Whole-file reading in the three modes through one reader entry point (impl.READER_ROUTES: MafReader over a list /
+    generator / text handle, MafReader.reader_from(path) plain and .gz).  The input is the file; the three modes read
+    the very same one."""
     allf = [p for l in lines for p in l.rstrip("\r\n").split("\t")]
     req = {"op": "reader.run", "lines": lines, "floats": float_table(allf)}
     # a scheme given by the caller overrides the header's (version mismatch is an error)
@@ -83,7 +86,18 @@ def eval_file(lines, given=None, given_norestrict=None):
         req["given_norestrict"] = given_norestrict
     elif given is not None:
         req["given"] = given
-    res = three(req)
+    where = {"entry": "file", "lines": lines, "given": given, "given_norestrict": given_norestrict}
+    if route == "list":
+        res = three(req)
+        mreq = req
+    else:
+        import tempfile
+        where.update(route=route, final=final)
+        with tempfile.TemporaryDirectory(dir=tmp) as d:
+            res = {m: impl.reader_run_via(dict(req, mode=m), route, d, final) for m in ("Strict", "Lenient", "Silent")}
+        # what the model is asked: a reader over the physical lines this route sees
+        seen = impl.route_lines(route, lines, final)
+        mreq = dict(req, lines=seen, floats=float_table([p for l in seen for p in l.split("\t")]))
 
     def errs(r):
         if "init_exc" in r:
@@ -91,10 +105,68 @@ def eval_file(lines, given=None, given_norestrict=None):
         return r["errors"]
     fails = []
     # Strict stops at the first failing stage: the error it carries is the first of the whole list
-    check_entry(fails, "whole-file reading", {"entry": "file", "lines": lines, "given": given, "given_norestrict": given_norestrict}, res, errs,
+    check_entry(fails, "whole-file reading" + ("" if route == "list" else " (reader route '%s')" % route), where, res, errs,
                 lambda r: [x["keys"] for x in r.get("records", [])] if not (r.get("init_exc") or r.get("iter_exc")) else None,
                 extra_log=("NO_MATCHING_SCHEME_WARNING",))
-    return {"req": req, "res": res, "failures": fails, "nontrivial": bool(res["Silent"].get("errors"))}
+    return {"req": mreq, "res": res, "failures": fails, "nontrivial": bool(res["Silent"].get("errors"))}
+
+
+def hdr_via(lines, mode, route, after=None):
+    """MafHeader parsed through `route` ("from_lines" | "line_reader": MafHeader.from_line_reader over a LineReader on a
+    text handle holding the lines and, when `after` is not None, a following non-header line): the answer shape of hdr.lines."""
+    import io
+    from maflib.header import MafHeader
+    from maflib.util import LineReader
+    with impl.LogCapture() as lc:
+        try:
+            if route == "line_reader":
+                text = "".join(l + "\n" for l in lines) + ("" if after is None else after + "\n")
+                h = MafHeader.from_line_reader(LineReader(io.StringIO(text)), validation_stringency=impl.MODES[mode])
+            else:
+                h = MafHeader.from_lines(list(lines), validation_stringency=impl.MODES[mode])
+        except Exception as e:  # noqa
+            return {"exc": exc_name(e)}
+    try:
+        sch = h.scheme()
+        sch = sch.annotation_spec() if sch is not None else None
+    except Exception as e:  # noqa
+        sch = "EXC:" + exc_name(e)
+    return {"header": impl.header_json(h), "logs": lc.parsed(), "scheme": sch}
+
+
+def eval_header_via(lines, route, after=None):
+    """Header parsing through MafHeader.from_line_reader (route "line_reader") in the three modes."""
+    res = {m: hdr_via(lines, m, route, after) for m in ("Strict", "Lenient", "Silent")}
+    fails = []
+    check_entry(fails, "header parsing (%s)" % route, {"entry": "header", "lines": lines, "route": route, "after": after}, res,
+                lambda r: r["header"]["errors"] if "header" in r else None,
+                lambda r: (r.get("header") or {}).get("records"))
+    # the model is asked about the header lines the line reader hands over: all of them (each starts with '#')
+    return {"req": {"op": "hdr.lines", "lines": lines}, "res": res, "failures": fails,
+            "nontrivial": bool(res["Silent"].get("header", {}).get("errors"))}
+
+
+def eval_header_validate(lines):
+    """header.validate(stringency) on a header parsed (Silent) from the lines (implementation only)."""
+    from maflib.header import MafHeader
+    res = {}
+    for mname, mode in _modes().items():
+        try:
+            h = MafHeader.from_lines(list(lines), validation_stringency=impl.MODES["Silent"])
+        except Exception as e:  # noqa
+            return {"req": None, "res": {}, "failures": [], "nontrivial": False, "skipped": exc_name(e)}
+        with impl.LogCapture() as lc:
+            try:
+                errs = h.validate(validation_stringency=mode)
+                res[mname] = {"errors": impl.errs_json(errs), "value": [[k, str(h[k])] for k in h]}
+            except Exception as e:  # noqa
+                res[mname] = {"exc": exc_name(e), "errors": impl.errs_json(h.validation_errors)}
+        res[mname]["logs"] = lc.parsed()
+    fails = []
+    check_entry(fails, "header validation", {"entry": "header-validate", "lines": lines}, res,
+                lambda r: r.get("errors") if "exc" not in r or not r["exc"].startswith("MafFormat") else [],
+                lambda r: r.get("value"))
+    return {"req": None, "res": res, "failures": fails, "nontrivial": bool(res["Silent"].get("errors"))}
 
 
 def _modes():
@@ -124,42 +196,55 @@ def eval_validate(ann, line):
     return {"req": None, "res": res, "failures": fails, "nontrivial": bool(res["Silent"].get("errors"))}
 
 
-def eval_write(ann, line):
-    """A writer (default header of the layout, caller handle) offered the record parsed (Silent) from the line."""
+def eval_write(ann, line, channel="handle", header_lines=None):
+    """A writer opened through one of impl.WRITER_CHANNELS (from_fd on a caller handle, the constructor itself, from_path
+    plain / .gz) on the default header of the layout - or on the header parsed (Silent) from `header_lines`, valid or
+    not: the writer validates it with its stringency - and offered the record parsed (Silent) from the line."""
+    import tempfile
     from maflib.header import MafHeader
     from maflib.record import MafRecord
     from maflib.validation import ValidationStringency as VS
-    from maflib.writer import MafWriter
     sch = impl.scheme_by_annotation(ann)
     wres = {}
     for mname, mode in _modes().items():
         rec = MafRecord.from_line(line, scheme=sch, validation_stringency=VS.Silent)
-        buf = io.StringIO()
-        buf.close = lambda: None
-        with impl.LogCapture() as lc:
+        text = lambda: ""   # noqa
+        herrs = []
+        with tempfile.TemporaryDirectory() as tmp, impl.LogCapture() as lc:
             try:
-                h = MafHeader.from_defaults(version=sch.version(), annotation=ann if ann != sch.version() else None)
-                w = MafWriter.from_fd(buf, h, validation_stringency=mode)
+                if header_lines is None:
+                    h = MafHeader.from_defaults(version=sch.version(), annotation=ann if ann != sch.version() else None)
+                else:
+                    with impl.LogCapture():
+                        h = MafHeader.from_lines(list(header_lines), validation_stringency=VS.Silent)
+                    h.validation_errors = []
+                w, text, _path = impl.open_writer(channel, h, mode, tmp)
+                herrs = impl.errs_json(h.validation_errors)
                 w += rec
                 w.close()
-                wres[mname] = {"errors": impl.errs_json(rec.validation_errors), "value": buf.getvalue()}
+                wres[mname] = {"errors": herrs + impl.errs_json(rec.validation_errors), "value": text()}
             except Exception as e:  # noqa
-                wres[mname] = {"exc": exc_name(e), "value": buf.getvalue()}
+                wres[mname] = {"exc": exc_name(e), "value": None}
         wres[mname]["logs"] = lc.parsed()
     fails = []
-    check_entry(fails, "writing", {"entry": "write", "scheme": ann, "line": line}, wres,
+    where = {"entry": "write", "scheme": ann, "line": line}
+    if channel != "handle" or header_lines is not None:
+        where.update(channel=channel, header_lines=header_lines)
+    check_entry(fails, "writing" + ("" if channel == "handle" else " (channel '%s')" % channel), where, wres,
                 lambda r: r.get("errors") if "exc" not in r or not r["exc"].startswith("MafFormat") else [],
                 lambda r: r.get("value") if "exc" not in r else None)
     return {"req": None, "res": wres, "failures": fails, "nontrivial": bool(wres["Silent"].get("errors"))}
 
 
-def compare_model(ctx, reqs3):
-    """Correspondence of the three-mode runs -> (unmodelled, dontcare, disagreements, [(request, model, impl)])."""
+def compare_model(ctx, reqs3, answers=None):
+    """Correspondence of the three-mode runs -> (unmodelled, dontcare, disagreements, [(request, model, impl)]).
+    `answers` (parallel to reqs3): the implementation's {mode: answer} obtained through another entry point than the
+    one impl.run uses for the request (a reader route, MafHeader.from_line_reader); the model is asked the plain request."""
     all_reqs = [dict(r, mode=m) for r in reqs3 for m in ("Strict", "Lenient", "Silent")]
     mo = ctx.driver.run(all_reqs)
     unmodelled, dontcare, dis, triples = 0, 0, [], []
-    for r, m in zip(all_reqs, mo):
-        i = impl.run(r)
+    for k, (r, m) in enumerate(zip(all_reqs, mo)):
+        i = impl.run(r) if answers is None else answers[k // 3][r["mode"]]
         triples.append((r, m, i))
         if has_unmodelled(m):
             unmodelled += 1
@@ -176,7 +261,9 @@ def compare_model(ctx, reqs3):
 
 def run(ctx):
     out = Outcome()
-    out.rule = ("each input is processed in the three modes at five entry points (header parsing, record parsing, whole-file reading, record validation, writing); "
+    out.rule = ("each input is processed in the three modes at five entry points (header parsing, record parsing, whole-file reading, record validation, writing), "
+                "each by every public route (MafHeader.from_lines / from_line_reader / validate; MafReader over lists, generators, handles and reader_from(path) plain/.gz, LF/CRLF; "
+                "MafWriter constructor / from_fd / from_path plain/.gz on default and on parsed, possibly invalid, headers); "
                 "non-trivial = at least one validation error collected; distinct inputs")
     rng = ctx.rng("c03")
     reqs3 = []
@@ -216,12 +303,84 @@ def run(ctx):
         reqs3.append(e["req"])
     # 4. record validation + 5. writing (implementation only)
     validation_and_writer(ctx, out, rng)
+    # the same entry points by their other public routes (own random streams: the ones above are unchanged)
+    via_reqs, via_answers = entry_point_routes(ctx, out)
     # correspondence of the three-mode runs
     unmodelled, dontcare, dis, _t = compare_model(ctx, reqs3)
     out.unmodelled += unmodelled
     out.dontcare += dontcare
     out.disagreements += dis
+    unmodelled, dontcare, dis, _t = compare_model(ctx, via_reqs, via_answers)
+    out.unmodelled += unmodelled
+    out.dontcare += dontcare
+    out.disagreements += [dict(d, via="another entry point (reader route / from_line_reader)") for d in dis]
     return out
+
+
+ODD_WRITER_HEADERS = [[], ["#version gdc-9.9.9"], ["#version gdc-1.0.0", "#annotation.spec nothing-known"], ["#annotation.spec gdc-1.0.0-public"],
+                      ["#version gdc-1.0.0", "#annotation.spec gdc-1.0.0"], ["#center x"], ["#version gdc-1.0.0", "#annotation.spec gdc-1.0.0-public", "#center x"],
+                      ["#version gdc-1.0.0", "#n.samples 4"], ["#version gdc-2.0.0"]]
+
+
+def entry_point_routes(ctx, out):
+    """Every public route to the five entry points gets the same kind of input and the same oracle:
+    whole files through MafReader over lists with terminators / a generator / a text handle and through
+    MafReader.reader_from(path) plain and .gz (LF / CRLF, with or without a final line end), headers valid or not;
+    headers through MafHeader.from_line_reader and header.validate(stringency); writers through the constructor,
+    from_path plain / .gz, on the layout's default header or on a parsed header the writer has to validate.
+    -> (model requests, the implementation's answers) for the routes that have a model op."""
+    import tempfile
+    via_reqs, via_answers = [], []
+    rng = ctx.rng("c03-reader-routes")
+    with tempfile.TemporaryDirectory() as tmp:
+        for _ in range(ctx.scale(120, 1200)):
+            ann = rng.choice([None, "gdc-1.0.0", "gdc-1.0.0-public"])
+            header = filecases.header_lines(rng) if rng.random() < 0.4 else None
+            lines = filecases.whole_file(rng, ann, sort=None, header=header, col=rng.random() < 0.9)
+            given = given_norestrict = None
+            k = rng.random()
+            if k < 0.1:
+                given_norestrict = rng.choice([["c1", "c2", "c3", "c4"], ["a", "b", "c", "d"], ["x"]])
+            elif k < 0.25:
+                given = rng.choice(["gdc-1.0.0", "gdc-1.0.0-public"])
+            route = rng.choice(impl.READER_ROUTES[1:])
+            e = eval_file(lines, given, given_norestrict, route, rng.random() < 0.8, tmp)
+            out.evaluations += 3
+            out.failures += e["failures"]
+            out.distribution["file-route:" + route] += 1
+            if e["nontrivial"]:
+                out.nontrivial.add(("file", route, repr(lines)))
+            if len(via_reqs) < ctx.scale(60, 400):
+                via_reqs.append(e["req"])
+                via_answers.append(e["res"])
+    rng = ctx.rng("c03-header-routes")
+    for _ in range(ctx.scale(120, 1200)):
+        lines = filecases.header_lines(rng)
+        e = eval_header_via(lines, "line_reader", rng.choice([None, "Hugo_Symbol\tChromosome", "", "x"]))
+        out.evaluations += 3
+        out.failures += e["failures"]
+        out.distribution["header-route:line_reader"] += 1
+        if e["nontrivial"]:
+            out.nontrivial.add(("hdr-line_reader", repr(lines)))
+        if len(via_reqs) < ctx.scale(120, 800):
+            via_reqs.append(e["req"])
+            via_answers.append(e["res"])
+        e = eval_header_validate(lines)
+        out.evaluations += 3
+        out.failures += e["failures"]
+        out.distribution["header-route:validate"] += 1
+    rng = ctx.rng("c03-writer-channels")
+    for ann in ["gdc-1.0.0", "gdc-1.0.0-public"]:
+        for line in colcases.line_cases(ann, rng, ctx.scale(15, 150)):
+            channel = rng.choice(impl.WRITER_CHANNELS)
+            header_lines = rng.choice(ODD_WRITER_HEADERS + [filecases.typical_header(rng, ann)]) if rng.random() < 0.4 else None
+            e = eval_write(ann, line, channel, header_lines)
+            out.evaluations += 3
+            out.failures += e["failures"]
+            out.distribution["writer-channel:" + channel + ("" if header_lines is None else "+parsed-header")] += 1
+            if e["nontrivial"]:
+                out.nontrivial.add(("write", channel, repr(header_lines), line))
+    return via_reqs, via_answers
 
 
 def validation_and_writer(ctx, out, rng):
@@ -266,7 +425,20 @@ def replay_case(ctx, failure):
     ([] = the three relations hold; None = the stored failure lacks the inputs: regenerate from the seed)."""
     f = failure
     entry = f.get("entry")
-    if entry == "header" and "lines" in f:
+    answers = None
+    if entry == "header" and "lines" in f and f.get("route", "from_lines") != "from_lines":
+        if f["route"] != "line_reader":
+            return None
+        e = eval_header_via(f["lines"], f["route"], f.get("after"))
+        answers = [e["res"]]
+        what = "MafHeader.from_line_reader(LineReader(text handle)) over %s%s" % (
+            _short(f["lines"], 200), "" if f.get("after") is None else " followed by the line %r" % f["after"])
+    elif entry == "header-validate" and "lines" in f:
+        e = eval_header_validate(f["lines"])
+        if e.get("skipped"):
+            return None
+        what = "MafHeader.from_lines(%s, Silent).validate(stringency)" % _short(f["lines"], 200)
+    elif entry == "header" and "lines" in f:
         e = eval_header(f["lines"])
         what = "MafHeader.from_lines(%s)" % _short(f["lines"], 200)
     elif entry == "record" and all(k in f for k in ("scheme", "line", "lineno")):
@@ -276,16 +448,36 @@ def replay_case(ctx, failure):
         what = "MafRecord.from_line(<%d fields>, scheme=%s, line_number=%s): %s" % (
             len(f["line"].split("\t")), f["scheme"], f["lineno"], _short(f["line"], 200))
     elif entry == "file" and all(k in f for k in ("lines", "given", "given_norestrict")):
-        e = eval_file(f["lines"], f["given"], f["given_norestrict"])
-        what = "MafReader(lines=<%d lines>, scheme=%s) iterated to the end: %s" % (
-            len(f["lines"]), ("NoRestrictionsScheme(%s)" % f["given_norestrict"]) if f["given_norestrict"] is not None else f["given"],
+        route = f.get("route", "list")
+        if route not in impl.READER_ROUTES:
+            return None
+        e = eval_file(f["lines"], f["given"], f["given_norestrict"], route, f.get("final", True))
+        if route != "list":
+            answers = [e["res"]]
+        opened = "MafReader(lines=<%d lines>" % len(f["lines"]) if route == "list" else \
+            ("MafReader.reader_from(<%s file of %d lines, %s line ends%s>" % (
+                ".gz" if route.startswith("gz") else "plain", len(f["lines"]), "CRLF" if route.endswith("crlf") else "LF",
+                "" if f.get("final", True) else ", none after the last line")) if route in impl.PATH_READER_ROUTES else \
+            "MafReader(lines=<%d lines as %s>" % (len(f["lines"]), {"list-nl": "a list, each ending in LF", "list-crlf": "a list, each ending in CRLF",
+                                                                      "iter": "a generator", "handle": "a text handle"}[route])
+        what = "%s, scheme=%s) iterated to the end: %s" % (
+            opened, ("NoRestrictionsScheme(%s)" % f["given_norestrict"]) if f["given_norestrict"] is not None else f["given"],
             _short(f["lines"], 300))
     elif entry in ("validate", "write") and all(k in f for k in ("scheme", "line")):
         if impl.scheme_by_annotation(f["scheme"]) is None:
             return None
-        e = (eval_validate if entry == "validate" else eval_write)(f["scheme"], f["line"])
-        what = ("record.validate(stringency, scheme=%s)" if entry == "validate" else "MafWriter(default %s header, stringency) += record") % f["scheme"] \
-            + " on the record parsed (Silent) from: %s" % _short(f["line"], 200)
+        if entry == "validate":
+            e = eval_validate(f["scheme"], f["line"])
+            what = "record.validate(stringency, scheme=%s)" % f["scheme"]
+        else:
+            channel = f.get("channel", "handle")
+            if channel not in impl.WRITER_CHANNELS:
+                return None
+            e = eval_write(f["scheme"], f["line"], channel, f.get("header_lines"))
+            what = "%s(%s, stringency) += record" % (
+                {"handle": "MafWriter.from_fd", "ctor": "MafWriter", "plain": "MafWriter.from_path(plain path)", "gz": "MafWriter.from_path(.gz path)"}[channel],
+                "default %s header" % f["scheme"] if f.get("header_lines") is None else "header parsed (Silent) from %s" % _short(f["header_lines"], 150))
+        what += " on the record parsed (Silent) from: %s" % _short(f["line"], 200)
     else:
         return None
     print("replay C03 (%s), in Strict / Lenient / Silent mode: %s" % (entry, what))
@@ -293,7 +485,7 @@ def replay_case(ctx, failure):
         print("  implementation %-7s: %s" % (mode, _short(_brief(e["res"][mode]), 400)))
     if e["req"] is not None:
         # entry points the module compares with the model
-        _u, _d, dis, triples = compare_model(ctx, [e["req"]])
+        _u, _d, dis, triples = compare_model(ctx, [e["req"]], answers)
         for r, m, i in triples:
             print("  model %-7s: %s (%s)" % (r["mode"], _short(_brief(m), 400),
                                              "outside the model" if has_unmodelled(m) else "agrees" if m == i else "differs"))
